@@ -336,6 +336,21 @@ pub fn fabricate_mint(rng: &mut Rng, authority: &Pubkey) -> FabMint {
             d.truncate(d.len().saturating_sub(1).max(167));
         }
     }
+    // a dangling tail after well-formed records: the two type bytes of one more extension without a length (or with
+    // half a length), or a single stray byte
+    let mut truncated = truncated;
+    if !truncated && rng.chance(1, 10) {
+        let ty: u16 = *rng.pick(&[9u16, 0xffff, 12, 14, 28]);
+        match rng.below(3) {
+            0 => d.extend_from_slice(&ty.to_le_bytes()),
+            1 => {
+                d.extend_from_slice(&ty.to_le_bytes());
+                d.push(0);
+            }
+            _ => d.push(ty as u8),
+        }
+        truncated = true;
+    }
     FabMint { data: d, exts, freeze, truncated, default_state }
 }
 
